@@ -435,6 +435,9 @@ func (cc *ClientConfig) UDPClient() (zerocopy.UDPClient, error) {
 		}
 		return s5ucc.NewClient(), nil
 	case "2022-blake3-aes-128-gcm", "2022-blake3-aes-256-gcm":
+		if cc.SlidingWindowFilterSize > ss2022.MaxSlidingWindowFilterSize {
+			return nil, fmt.Errorf("slidingWindowFilterSize %d exceeds the maximum %d", cc.SlidingWindowFilterSize, uint64(ss2022.MaxSlidingWindowFilterSize))
+		}
 		return ss2022.NewUDPClient(cc.Name, cc.Network, cc.UDPAddress, cc.MTU, listenConfig, cc.SlidingWindowFilterSize, cc.cipherConfig, cc.PaddingPolicy.Policy()), nil
 	default:
 		return nil, fmt.Errorf("unknown protocol: %s", cc.Protocol)
